@@ -15,3 +15,32 @@ Definition case32 (pf al me : Z) (n : Z) (m : list Z) : list Z :=
   render_run f32_to_bits
     (run_fresh F32 (profile_of_Z pf) (algo_of_Z al) (method_of_Z me)
                (map f32_of_bits m) (Z.to_N n)).
+
+(* Reuse histories: a list of `_with` calls sharing one LinkageState and
+   Dendrogram.  A panicking call leaves the model's state as it was (the real
+   state is then arbitrary; by Props C08 the next result does not depend on
+   it).  Each call's rendering is followed by the separator -1. *)
+Section Hist.
+Set Implicit Arguments.
+Variable T : Type.
+Variable F : fops T.
+Variable of_bits : Z -> T.
+Variable to_bits : T -> Z.
+
+Definition hist_step (pf : profile) (acc : lstate T * dend T * list Z) (c : Z * Z * Z * list Z)
+  : lstate T * dend T * list Z :=
+  let '(s, d, out) := acc in
+  let '(al, me, n, m) := c in
+  let r := run_with F pf (algo_of_Z al) (method_of_Z me) s d (map of_bits m) (Z.to_N n) in
+  let out' := out ++ render_run to_bits r ++ [-1] in
+  match r with
+  | Ok (s', d', _) => (s', d', out')
+  | _ => (s, d, out')
+  end.
+
+Definition hist (pf : profile) (calls : list (Z * Z * Z * list Z)) : list Z :=
+  let '(_, _, out) := fold_left (hist_step pf) calls (st_new T, d_new T 0, []) in out.
+End Hist.
+
+Definition hist64 (pf : Z) calls := hist F64 f64_of_bits f64_to_bits (profile_of_Z pf) calls.
+Definition hist32 (pf : Z) calls := hist F32 f32_of_bits f32_to_bits (profile_of_Z pf) calls.
